@@ -3,6 +3,11 @@ import BppProofs.Lemmas.HmmCache
 import BppProofs.Lemmas.HmmAuto
 import BppProofs.Lemmas.HmmLogPost
 import BppProofs.Lemmas.HmmMarginal
+import BppProofs.Lemmas.HmmBreaks
+import BppProofs.Lemmas.HmmSite
+import BppProofs.Lemmas.HmmLogMarginal
+import BppProofs.Lemmas.HmmFullCache
+import BppProofs.Lemmas.HmmFullReal
 /-!
 # C13 — HMM likelihood algorithms   (src/Bpp/Numeric/Hmm)
 
@@ -163,11 +168,71 @@ theorem logsum_posterior_prob (p : Params ℝ) (hn : 0 < p.n) (hp : PosP p) (e0 
       ∧ ∀ row ∈ m, (∀ x ∈ row, 0 ≤ x) ∧ row.sum = 1 ∧ row.length = p.n :=
   logPosterior_prob p hn hp e0 he0 es hes bps hv dE d2E
 
-/-- outside that domain the code does not validate its argument: for the break-point vector `[0]`
-on three positions the forward pass resets at position 1 while the backward pass never resets
-(recorded finding C13-invalid-breaks) -/
+/-- … and, as for the rescaled class, the posterior of state `j` at position `i` is the exact path marginal:
+entry `(i, j)` of `getHiddenStatesPosteriorProbabilities`, multiplied by the sum over all hidden paths, is the
+sum over the hidden paths that are in state `j` at position `i` -/
+theorem logsum_posterior_is_path_marginal (p : Params ℝ) (hn : 0 < p.n) (hp : PosP p) (e0 : Emis ℝ) (he0 : PosE e0)
+    (es : List (Emis ℝ)) (hes : ∀ e ∈ es, PosE e) (bps : List Nat) (hv : ValidBreaks (es.length + 1) bps)
+    (dE d2E : String → Emis ℝ × List (Emis ℝ)) (i : Nat) (hi : i < es.length + 1) (j : Nat) (hj : j < p.n) :
+    ∃ m row x, logPosterior { p := p, e0 := e0, es := es, dE := dE, d2E := d2E } bps = some m
+      ∧ m[i]? = some row ∧ row[j]? = some x
+      ∧ x * pathSum p e0 (mkSites es bps) = pathMarginal p e0 (mkSites es bps) i j :=
+  logPosterior_marginal p hn hp e0 he0 es hes bps hv dE d2E i hi j hj
+
+/-! ## Break points: `setBreakPoints` validates its argument (as repaired, abe9279) -/
+
+/-- the vectors accepted by `setBreakPoints` (`Hmm.breaksOk`, the transcription of `checkBreakPoints_`) are
+exactly the strictly increasing vectors of positions `1 … T-1` -/
+theorem accepted_breaks_valid (T : Nat) (bps : List Nat) : breaksOk T bps = true ↔ ValidBreaks T bps :=
+  breaksOk_iff T bps
+
+/-- every other vector is refused by the three classes: the call raises and the object is unchanged -/
+theorem invalid_breaks_refused {α : Type} [Scalar α] [HasIsInf α] (bps : List Nat) :
+    (∀ o : RescObj α, breaksOk o.tab.T bps = false → o.step (.setBreaks bps) = (o, .exc))
+    ∧ (∀ o : LogObj α, breaksOk o.tab.T bps = false → o.step (.setBreaks bps) = (o, .exc))
+    ∧ (∀ o : LowObj α, breaksOk o.tab.T bps = false → o.step (.setBreaks bps) = (o, .exc)) :=
+  ⟨fun o h => RescObj.setBreaks_refused o bps h, fun o h => LogObj.setBreaks_refused o bps h,
+   fun o h => LowObj.setBreaks_refused o bps h⟩
+
+/-- the break points of an object are valid in every history that did not raise (parameter updates keep the
+number of positions, which the C++ fixes at construction): rescaled and log-sum classes -/
+theorem reachable_breaks_valid {α : Type} [Scalar α] [HasIsInf α] (t : Tables α) (ops : List (Op α))
+    (hvar : ∀ op ∈ ops, op ≠ Op.d1 "" ∧ op ≠ Op.d2 "") (hnm : derivNamesOk "" "" ops = true)
+    (hlen : SameLength t.T ops) :
+    (∀ o : RescObj α, RescObj.build t = some o → (∀ a ∈ o.run ops, a ≠ Ans.exc) → breaksOk t.T (bpsAfter [] ops) = true)
+    ∧ ((∀ a ∈ (LogObj.build t).run ops, a ≠ Ans.exc) → breaksOk t.T (bpsAfter [] ops) = true) := by
+  constructor
+  · intro o hb hne
+    obtain ⟨hc, ht, hbp, hd, hd2⟩ := RescObj.build_consistent t o hb
+    have := RescObj.reachable_breaks o hc t.T (by rw [ht]) (by rw [hbp]; rfl) ops hne hvar (by rw [hd, hd2]; exact hnm) hlen
+    rwa [hbp] at this
+  · intro hne
+    obtain ⟨hc, ht, hbp, hd, hd2⟩ := LogObj.build_consistent t
+    have := LogObj.reachable_breaks _ hc t.T (by rw [ht]) (by rw [hbp]; rfl) ops hne hvar (by rw [hd, hd2]; exact hnm) hlen
+    rwa [hbp] at this
+
+/-- hence the posterior theorems hold for **every** vector of break points an object can hold: rescaled class … -/
+theorem posterior_prob_accepted (p : Params ℝ) (hp : NonNegP p) (e0 : Emis ℝ) (he0 : NonNegE e0)
+    (es : List (Emis ℝ)) (hes : ∀ e ∈ es, NonNegE e) (bps : List Nat) (hacc : breaksOk (es.length + 1) bps = true)
+    (hpos : ∀ c ∈ (rescForward p e0 (mkSites es bps)).scales, 0 < c) :
+    (rescPosterior p e0 es bps).length = es.length + 1
+    ∧ ∀ row ∈ rescPosterior p e0 es bps, (∀ x ∈ row, 0 ≤ x) ∧ row.sum = 1 ∧ row.length = p.n :=
+  posterior_prob p hp e0 he0 es hes bps ((breaksOk_iff _ _).mp hacc) hpos
+
+/-- … and log-sum class -/
+theorem logsum_posterior_prob_accepted (p : Params ℝ) (hn : 0 < p.n) (hp : PosP p) (e0 : Emis ℝ) (he0 : PosE e0)
+    (es : List (Emis ℝ)) (hes : ∀ e ∈ es, PosE e) (bps : List Nat) (hacc : breaksOk (es.length + 1) bps = true)
+    (dE d2E : String → Emis ℝ × List (Emis ℝ)) :
+    ∃ m, logPosterior { p := p, e0 := e0, es := es, dE := dE, d2E := d2E } bps = some m
+      ∧ m.length = es.length + 1
+      ∧ ∀ row ∈ m, (∀ x ∈ row, 0 ≤ x) ∧ row.sum = 1 ∧ row.length = p.n :=
+  logsum_posterior_prob p hn hp e0 he0 es hes bps ((breaksOk_iff _ _).mp hacc) dE d2E
+
+/-- before the repair any vector was accepted: for `[0]` on three positions the forward pass resets at
+position 1 while the backward pass never resets (witness of the former finding C13-invalid-breaks); the
+vector is now refused -/
 theorem invalid_breaks_flags_witness :
-    fwdFlags 3 2 1 [0] = [true, false] ∧ (bwdFlags 2 [0].reverse).reverse = [false, false] := by decide
+    fwdFlags 3 2 1 [0] = [true, false] ∧ (bwdFlags 2 [0].reverse).reverse = [false, false] ∧ breaksOk 3 [0] = false := by decide
 
 /-! ## History independence of the cached objects
 
@@ -176,20 +241,27 @@ changes and queries on the cached object; `…SpecRun` answers every query from 
 current tables (`rescSpec` = what a freshly built object answers).  The statements are generic in
 the scalar type: they also hold for the `Float` instance the driver runs. -/
 
-/-- rescaled class: in every history in which no call raised, each answer (log-likelihood,
-posterior matrix, first and second derivative) is the answer of a fresh object with the current parameter
-values and break points.  (`d1 ""`, `d2 ""` are excluded: the empty name is the cache's "nothing cached" marker.) -/
+/-- rescaled class: in every history in which no call raised, each answer (log-likelihood, posterior
+matrix written to an empty vector / over a vector / appended to a vector, posterior of one position,
+likelihood of one position and of every position, first and second derivative, and the per-position
+derivative terms for the variable of the last derivative query) is the answer of a fresh object with the
+current parameter values and break points.  (`d1 ""`, `d2 ""` are excluded: the empty name is the cache's
+"nothing cached" marker; `derivNamesOk`: the per-position derivative accessors, which have no variable
+argument, are asked only after a derivative query that followed the last update.) -/
 theorem history_independent {α : Type} [Scalar α] (t : Tables α) (o : RescObj α) (hb : RescObj.build t = some o)
-    (ops : List (Op α)) (hne : ∀ a ∈ o.run ops, a ≠ Ans.exc) (hvar : ∀ op ∈ ops, op ≠ Op.d1 "" ∧ op ≠ Op.d2 "") :
-    o.run ops = rescSpecRun t [] ops := by
-  obtain ⟨hc, ht, hbp⟩ := RescObj.build_consistent t o hb
-  rw [RescObj.run_spec o hc ops hne hvar, ht, hbp]
+    (ops : List (Op α)) (hne : ∀ a ∈ o.run ops, a ≠ Ans.exc) (hvar : ∀ op ∈ ops, op ≠ Op.d1 "" ∧ op ≠ Op.d2 "")
+    (hnm : derivNamesOk "" "" ops = true) :
+    o.run ops = rescSpecRun t [] "" "" ops := by
+  obtain ⟨hc, ht, hbp, hd, hd2⟩ := RescObj.build_consistent t o hb
+  rw [RescObj.run_spec o hc ops hne hvar (by rw [hd, hd2]; exact hnm), ht, hbp, hd, hd2]
 
-/-- log-sum class (log-likelihood and posteriors; its derivatives are not modelled) -/
-theorem history_independent_logsum {α : Type} [Scalar α] (t : Tables α) (ops : List (Op α)) :
-    (LogObj.build t).run ops = logSpecRun t [] ops := by
-  obtain ⟨hc, ht, hbp⟩ := LogObj.build_consistent t
-  rw [LogObj.run_spec _ hc ops, ht, hbp]
+/-- log-sum class, with its derivative recursions -/
+theorem history_independent_logsum {α : Type} [Scalar α] [HasIsInf α] (t : Tables α) (ops : List (Op α))
+    (hne : ∀ a ∈ (LogObj.build t).run ops, a ≠ Ans.exc) (hvar : ∀ op ∈ ops, op ≠ Op.d1 "" ∧ op ≠ Op.d2 "")
+    (hnm : derivNamesOk "" "" ops = true) :
+    (LogObj.build t).run ops = logSpecRun t [] "" "" ops := by
+  obtain ⟨hc, ht, hbp, hd, hd2⟩ := LogObj.build_consistent t
+  rw [LogObj.run_spec _ hc ops hne hvar (by rw [hd, hd2]; exact hnm), ht, hbp, hd, hd2]
 
 /-- low-memory class -/
 theorem history_independent_lowmem {α : Type} [Scalar α] (t : Tables α) (maxSize : Nat) (o : LowObj α)
@@ -201,6 +273,29 @@ theorem history_independent_lowmem {α : Type} [Scalar α] (t : Tables α) (maxS
   · cases hb
   · have := Option.some.inj hb; subst this
     exact LowObj.run_spec _ rfl rfl rfl ops hne hvar
+
+/-! ## Options of the posterior accessors -/
+
+/-- `getHiddenStatesPosteriorProbabilities(probs, append)`, rescaled and log-sum classes, in every state
+of the object: the rows written are those of the plain call (`probs` empty, `append = false`), placed
+after the former content of `probs` with `append` and replacing it without — whatever `probs` held,
+however often the call is repeated on the same vector -/
+theorem posterior_append {α : Type} [Scalar α] [HasIsInf α] (buf : List (List α)) (append : Bool) :
+    (∀ (o : RescObj α) (m : List (List α)), (o.step .posterior).2 = .mat m →
+        (o.step (.posteriorInto buf append)).2 = .mat ((if append then buf else []) ++ m))
+    ∧ (∀ (o : LogObj α) (m : List (List α)), (o.step .posterior).2 = .mat m →
+        (o.step (.posteriorInto buf append)).2 = .mat ((if append then buf else []) ++ m)) :=
+  ⟨fun o m h => RescObj.posteriorInto_of_posterior o buf append m h,
+   fun o m h => LogObj.posteriorInto_of_posterior o buf append m h⟩
+
+/-- log-sum class: for valid break points `getHiddenStatesPosteriorProbabilitiesForASite(site)`, which
+walks through the break points on its own, answers row `site` of `getHiddenStatesPosteriorProbabilities`
+— at every position, in particular at, before and after a break point -/
+theorem logsum_single_site_agrees {α : Type} [Scalar α] (fw : LogFwd α) (back : List (List α)) (bps : List Nat)
+    (hlen : back.length = fw.logLik.length) (hv : ValidBreaks fw.logLik.length bps)
+    (m : List (List α)) (hm : logPosteriorOf fw back bps = some m) (site : Nat) (hs : site < fw.logLik.length) :
+    logPosteriorSiteOf fw back bps site = m[site]? :=
+  logPosteriorSite_eq_row fw back bps hlen hv m hm site hs
 
 /-- the hypothesis "no call raised" cannot be dropped: after an update that raised (negative
 transition probability) the rescaled object keeps answering the old log-likelihood -/
@@ -215,26 +310,23 @@ theorem history_dependent_after_exception :
   have h1 : transOk t1.p = false := by decide
   have hb0 : rescCompute t0 [] = some (rescForward t0.p t0.e0 (mkSites t0.es [])) := by simp [rescCompute, h0]
   have hb1 : ∀ bps, rescCompute t1 bps = none := by intro bps; simp [rescCompute, h1]
-  refine ⟨(RescObj.mk t0 [] (rescForward t0.p t0.e0 (mkSites t0.es [])) [] false "" emptyD "" Scalar.zero),
+  refine ⟨(RescObj.mk t0 [] (rescForward t0.p t0.e0 (mkSites t0.es [])) [] false "" emptyD "" emptyD2),
     by simp only [RescObj.build, hb0, Option.map_some], ?_, ?_, ?_⟩
   · simp only [RescObj.step, hb1]
   · simp only [RescObj.step, hb1]
   · simp only [RescObj.build, hb1, Option.map_none, Option.isNone_none]
 
-/-! ## Built-in transition models: AutoCorrelationTransitionMatrix (as repaired)
+/-! ## Built-in transition models: AutoCorrelationTransitionMatrix (as repaired) -/
 
-`FullHmmTransitionMatrix` is not modelled (its rows are C19's simplices, its equilibrium vector is
-row 0 of `P^256` computed by C04's `pow` — exactly stationary only in the limit); it is judged on the
-implementation's answers only. -/
-
-/-- with at least two states and every `λ_i ∈ [0,1]` each row of the matrix is a probability vector -/
-theorem autocorr_row_stochastic (n : Nat) (hn : 2 ≤ n) (li : ℝ) (h0 : 0 ≤ li) (h1 : li ≤ 1) (i : Nat) (hi : i < n) :
+/-- for every number of states ≥ 1 and every `λ_i ∈ [0,1]` each row of the matrix is a probability vector
+(a single state: the matrix is `[1]`, as repaired) -/
+theorem autocorr_row_stochastic (n : Nat) (hn : 1 ≤ n) (li : ℝ) (h0 : 0 ≤ li) (h1 : li ≤ 1) (i : Nat) (hi : i < n) :
     ∑ j ∈ Finset.range n, autoEntry n li i j = 1 ∧ ∀ j, 0 ≤ autoEntry n li i j :=
   ⟨autoEntry_row_sum n hn li i hi, autoEntry_nonneg n hn li h0 h1 i⟩
 
 /-- the equilibrium vector computed by `fireParameterChanged` is a genuine stationary distribution
 of that matrix: `π·P = π`, `Σ π = 1`, `π > 0` (every `λ_i < 1`, which the parameter constraint ]0,1[ enforces) -/
-theorem autocorr_stationary (n : Nat) (hn : 2 ≤ n) (lam : Nat → ℝ) (hl : ∀ i, i < n → lam i < 1) :
+theorem autocorr_stationary (n : Nat) (hn : 1 ≤ n) (lam : Nat → ℝ) (hl : ∀ i, i < n → lam i < 1) :
     autoEq (vec n lam) = vec n (autoPi n lam)
     ∧ (∀ j, j < n → ∑ k ∈ Finset.range n, autoPi n lam k * autoEntry n (lam k) k j = autoPi n lam j)
     ∧ ∑ i ∈ Finset.range n, autoPi n lam i = 1 ∧ ∀ i, i < n → 0 < autoPi n lam i :=
@@ -247,9 +339,64 @@ theorem autocorr_history_independent {α : Type} [Scalar α] (n : Nat) (ops : Li
       = autoSpecRun n (List.replicate n (Scalar.ofRat 95 100)) (List.replicate n (Scalar.one / Scalar.ofInt n)) ops :=
   AutoTM.runA_spec _ (by simp [AutoTM.build]) ops
 
-/-- with a single state the "matrix" is `[λ]`, not `[1]` (degenerate case, outside the theorem above) -/
-theorem autocorr_one_state_witness : autoEntry 1 (19 / 20 : ℝ) 0 0 ≠ 1 := by
-  simp [autoEntry]; norm_num
+/-- before the repair (3a53bfc) the single-state "matrix" was `[λ]`: the diagonal formula without the
+one-state case (kept as the witness of the former finding C13-autocorr-one-state) -/
+theorem autocorr_one_state_witness :
+    (if (0 : Nat) == 0 then (19 / 20 : ℝ) else (1 - 19 / 20) / ((1 : ℝ) - 1)) ≠ 1 ∧ autoEntry 1 (19 / 20 : ℝ) 0 0 = 1 := by
+  refine ⟨by norm_num, autoEntry_one _ _ _⟩
+
+/-- `getPij()` agrees entry-wise with `Pij(i, j)`: entry `(i, j)` of the matrix a cache-free object
+computes is the value `Pij(i, j)` computes (and by `autocorr_history_independent` the cached object answers
+the same in every history) -/
+theorem autocorr_pij_agree {α : Type} [Scalar α] (n : Nat) (lam : List α) (i j : Nat) (hj : j < n) :
+    ((autoMatrix n lam)[i]?).bind (·[j]?) = (lam[i]?).map (fun li => autoEntry n li i j) :=
+  autoMatrix_entry n lam i j hj
+
+/-! ## Built-in transition models: FullHmmTransitionMatrix (rows = C19's simplices, equilibrium vector =
+row 0 of `P^256` by C04's `pow`; as repaired) -/
+
+/-- the two caches (`pij_`, `eqFreq_` with their up-to-date flags) never matter: in every history of
+updates (`setTransitionProbabilities`, `setParameterValue`, accepted or refused) and queries (`getPij`,
+`Pij`, `getEquilibriumFrequencies`) each answer is the one of the object whose caches are discarded before
+every call.  Generic in the scalar type. -/
+theorem full_history_independent {α : Type} [Scalar α] (n : Nat) (m : FullTM α) (hb : FullTM.build n = some m)
+    (ops : List (FullOp α)) : m.run ops = m.runFresh ops :=
+  FullTM.run_eq_runFresh m (FullTM.build_cacheOk n m hb) ops
+
+/-- … and each query is answered from the simplices alone: `getPij()` = the matrix of the `Pij(i, j)`
+(entry-wise agreement), `getEquilibriumFrequencies()` = row 0 of the 256-th power of that matrix -/
+theorem full_queries_from_simplices {α : Type} [Scalar α] (m : FullTM α) (h : m.CacheOk) :
+    (m.step .getPij).2 = .mat (fullMatrix m.rows)
+    ∧ (∀ i j, (m.step (.entry i j)).2 = match fullEntry m.rows i j with | some x => .val x | none => .err .ub)
+    ∧ (m.step .getEq).2 = (match fullEqOf m.n (fullMatrix m.rows) with | some e => .vec e | none => .err .ub)
+    ∧ (∀ op, (m.step op).1.CacheOk) :=
+  ⟨(FullTM.query_spec m h .getPij (Or.inl rfl)).1,
+   fun i j => (FullTM.query_spec m h (.entry i j) (Or.inr (Or.inl ⟨i, j, rfl⟩))).1,
+   (FullTM.query_spec m h .getEq (Or.inr (Or.inr rfl))).1,
+   fun op => FullTM.step_cacheOk m h op⟩
+
+/-- in every history from the constructor (1 ≤ n < 2^31 states; any arguments, refused calls change
+nothing) the matrix has `n` rows of `n` strictly positive entries summing to one -/
+theorem full_matrix_row_stochastic (n : Nat) (hn : 0 < n) (h31 : n < 2 ^ 31) (ops : List (FullOp ℝ)) :
+    ∃ m, FullTM.build (α := ℝ) n = some m ∧
+      ∃ Pf : Nat → Nat → ℝ, fullMatrix (m.after ops).rows = vec n (fun i => vec n (Pf i))
+        ∧ (∀ i j, i < n → j < n → 0 < Pf i j) ∧ ∀ i, i < n → ∑ j ∈ Finset.range n, Pf i j = 1 := by
+  obtain ⟨m, hb, hinv, hmn⟩ := FullTM.build_rowsInv n hn h31
+  obtain ⟨h1, h2⟩ := FullTM.after_rowsInv m hinv ops
+  obtain ⟨Pf, e, hpos, hsum⟩ := FullTM.rows_stochastic _ h1
+  rw [h2, hmn] at e hpos hsum
+  exact ⟨m, hb, Pf, e, hpos, hsum⟩
+
+/-- the equilibrium vector of such a matrix — row 0 of `P^256` as `MatrixTools::pow` computes it — is a
+probability vector and is stationary **up to an explicit remainder**: `|Σ_k π_k·P(k,j) − π_j| ≤ 2·(1 − n·δ)^256`
+for every `δ ≥ 0` below all entries of `P` (Dobrushin's contraction; exact stationarity `π·P = π` is false in
+exact arithmetic for a finite power) -/
+theorem full_stationary_remainder (n : Nat) (hn : 0 < n) (Pf : Nat → Nat → ℝ) (δ : ℝ) (hδ0 : 0 ≤ δ)
+    (hδ : ∀ i j, i < n → j < n → δ ≤ Pf i j) (hsum : ∀ i, i < n → ∑ j ∈ Finset.range n, Pf i j = 1) :
+    ∃ π : Nat → ℝ, fullEqOf n (vec n (fun i => vec n (Pf i))) = some (vec n π)
+      ∧ (∀ j, j < n → 0 ≤ π j) ∧ ∑ j ∈ Finset.range n, π j = 1
+      ∧ ∀ j, j < n → |∑ k ∈ Finset.range n, π k * Pf k j - π j| ≤ 2 * (1 - n * δ) ^ 256 :=
+  fullEqOf_stationary n hn Pf δ hδ0 hδ hsum
 
 /-! ## Non-vacuity -/
 
@@ -259,5 +406,15 @@ example : PosP exP ∧ NonNegP exP ∧ 0 < exP.n := by
   refine ⟨⟨fun _ _ => by simp [exP], fun _ => by simp [exP]⟩, ⟨fun _ _ => by simp [exP], fun _ => by simp [exP]⟩, by simp [exP]⟩
 example : ValidBreaks 5 [1, 3] := by
   refine ⟨by simp, ?_⟩; intro b hb; simp at hb; rcases hb with rfl | rfl <;> omega
+example : breaksOk 5 [1, 3] = true ∧ breaksOk 5 [3, 1] = false ∧ breaksOk 5 [5] = false := by decide
+/-- a history satisfying `derivNamesOk` and the other hypotheses of `history_independent` that uses every operation -/
+example : derivNamesOk "" "" ([.posteriorInto [] true, .d1 "e1_0", .dSite 1, .d2 "e1_0", .d2Site 0, .posteriorSite 0,
+    .siteLik 0, .siteLiks, .setBreaks [1], .d2 "e0_0", .d2Site 1] : List (Op Rat)) = true := by decide
+/-- a 2-state matrix satisfying the hypotheses of `full_stationary_remainder` with `δ = 1/4`: the remainder is `2·(1/2)^256` -/
+example : (∀ i j, i < 2 → j < 2 → (1 / 4 : ℝ) ≤ (fun i j => if i = j then (3 / 4 : ℝ) else 1 / 4) i j)
+    ∧ ∀ i, i < 2 → ∑ j ∈ Finset.range 2, (fun i j => if i = j then (3 / 4 : ℝ) else 1 / 4) i j = 1 := by
+  refine ⟨fun i j _ _ => by simp only; split <;> norm_num, fun i hi => ?_⟩
+  have : i = 0 ∨ i = 1 := by omega
+  rcases this with rfl | rfl <;> simp [Finset.sum_range_succ] <;> norm_num
 
 end Bpp.C13
